@@ -284,6 +284,8 @@ REQUESTS = {
     'batch-internal2': [call('vboom', id=1), call('valboom', id=2), call('ok', [1], id=3), call('vboom', id=4)],
     'internal': call('valboom'), 'internal-n': call('vboom', id=None),
     'batch-internal': [call('vboom', id=1), call('ok', [1], id=2), call('valboom', id=None)],
+    # a batch longer than any round chunk size: every element passes the whole chain
+    'batch-long': [call('ok', [i], id=i) if i % 3 else call('perr', id=i) for i in range(1, 301)],
     # requests WITHOUT a params member
     'paramless': call('ok'), 'batch-paramless': [call('ok', id=1), call('ok', id=2), call('ok', id=None), call('nop', id=3)],
 }
@@ -296,6 +298,8 @@ def gen_cases(ctx):
         for stack in itertools.product(['pass', 'short', 'rewrite', 'wrap'], repeat=n):
             for table in HANDLER_TABLES:
                 for rq in list(REQUESTS) + ['unparsable']:
+                    if rq == 'batch-long' and (n > 1 or table not in ('none', 'generic+percode')):
+                        continue
                     for disp in ('sync', 'async', 'async-seq'):
                         if disp == 'async-seq' and not isinstance(REQUESTS.get(rq), list):
                             continue      # sequential batch mode only matters for batches
